@@ -23,8 +23,11 @@ def adapters():
     from ..envs.cvrptw import CVRPTW
     from ..envs.op import OP
 
+    from ..envs.mtsp import MTSP
+
     out = [a for a in _base_adapters() if a.name != "op"]
-    for cls in (OP, CVRPTW):
+    # MTSP (min-max): the objective is read from the rollout STATE, so the best beam's state must be handed back with its actions
+    for cls in (OP, CVRPTW, MTSP):
         a = cls()
         a.tag = a.name
         out.append(a)
@@ -41,7 +44,7 @@ def dl_group(ad, insts):
 def small_family(ad, tier):
     if ad.name in ("tsp", "cvrp"):
         return _base_family(ad, tier)
-    fam = ad.family("quick", 0)
+    fam = [i for i in ad.family("quick", 0) if i.get("variant", "minmax") == "minmax"]
     fam = fam[:: max(1, len(fam) // (6 if tier == "quick" else 16))]
     for k, i in enumerate(fam):
         i["id"] = k + 1
